@@ -35,6 +35,9 @@ def configs(tier):
         for w in (1, 2):
             out.append(dict(key=f"sizes={s},window={w}", sizes=list(s), w=w, cost=10 ** sum(s), split=(24 if sum(s) >= 3 else None)))
     out.append(dict(key="job-dispatch", kind="dispatch", cost=1))
+    out.append(dict(key="sizes=(1, 1),window=1,after-earlier-fast-alignment-and-remove", sizes=[1, 1], w=1, warm=True, cost=3000, split=24))
+    if tier == "thorough":
+        out.append(dict(key="sizes=(2, 1),window=1,after-earlier-fast-alignment-and-remove", sizes=[2, 1], w=1, warm=True, cost=30000, split=48))
     if tier == "thorough":
         for s in [(3, 1), (3, 2), (2, 2, 1)]:
             for w in (1, 2, 3):
@@ -110,7 +113,7 @@ def harness(cfg, ns):
         ctx.notes["scales"] = [de]
 
         def rz(m):
-            return dict(kind="fast", sizes=list(sizes), w=w, de=common.frs(mval(m, de)),
+            return dict(kind="fast", warm=bool(cfg.get("warm")), sizes=list(sizes), w=w, de=common.frs(mval(m, de)),
                         units=[[ANN[a], common.frs(mval(m, v["start"])), common.frs(mval(m, v["end"])), v["label"]] for (a, j), v in sorted(info.items())],
                         annotators=[ANN[a] for a in range(n)],
                         pairs={f"{i},{j}": common.frs(mval(m, v)) for (i, j), v in table.D.items()})
@@ -127,8 +130,21 @@ def harness(cfg, ns):
             return orig_w(self, d, w_)
         co.Continuum.get_first_window = spy
         co.Continuum.get_best_alignment = contract_best_alignment(ns, ctx, table)
-        snapshot_before = [(a, u.segment.start, u.segment.end, u.annotation) for a, u in c]
+        snapshot_before = None
         try:
+            if cfg.get("warm"):
+                # history on the same continuum / dissimilarity objects: a fast alignment with one more unit, that unit removed, again
+                # (inside the try: the spies are uninstalled even if this path is abandoned here)
+                extra = (ANN[0], Segment(core.const(2000), core.const(2005)), "c999")
+                c.add(*extra)
+                try:
+                    c.get_fast_alignment(D, w)
+                except Stall:
+                    raise core.PathAbort()
+                calls[0] = 0
+                del progress[:]
+                c.remove(extra[0], co.Unit(extra[1], extra[2]))
+            snapshot_before = [(a, u.segment.start, u.segment.end, u.annotation) for a, u in c]
             try:
                 fast = c.get_fast_alignment(D, w)
             except Stall:
@@ -197,14 +213,21 @@ def replay(case):
     de = float(Fraction(case["de"]))
     c = common.real_continuum(case)
     nunits = sum(sizes)
-    cats = SortedSet(common.uid_label(k) for k in range(nunits))
-    M = np.zeros((nunits, nunits), dtype=np.float32)
+    labels = [common.uid_label(k) for k in range(nunits)] + (["c999"] if case.get("warm") else [])
+    cats = SortedSet(labels)
+    M = np.zeros((len(labels), len(labels)), dtype=np.float32)
     P = {}
     for key, v in case["pairs"].items():
         i, j = (int(x) for x in key.split(","))
         M[i, j] = M[j, i] = float(Fraction(v)) / de
         P[(i, j)] = P[(j, i)] = float(Fraction(v))
     D = pa.PrecomputedCategoricalDissimilarity(cats, M, delta_empty=de)
+    if case.get("warm"):
+        from pyannote.core import Segment
+        ex = pa.Unit(Segment(2000.0, 2005.0), "c999")
+        c.add(common.ANN[0], ex.segment, ex.annotation)
+        c.get_fast_alignment(D, case["w"])
+        c.remove(common.ANN[0], ex)
     before = [(a, u) for a, u in c]
     try:
         fast = c.get_fast_alignment(D, case["w"])
